@@ -106,7 +106,10 @@ def handle (line : String) : String :=
       | .error e => toString (Sexp.list [.atom "err", .atom (errTo e)])
       | .ok r => toString (Sexp.list [.atom "ok", optSeqTo r.th, .list (treeTo [] r.root),
           .list (r.gaps.map seqTo),
-          .list (r.trace.map fun e => .list [posTo e.pos, ruleTo e.rule, optSeqTo e.computed, seqTo e.th])])
+          .list (r.trace.map fun e => .list [posTo e.pos, ruleTo e.rule, optSeqTo e.computed, seqTo e.th]),
+          (let c := countsOf (Toy.rules thms) lvl r.trace
+           .list [Sexp.ofNat c.thm, Sexp.ofNat c.prim, Sexp.ofNat c.mac,
+                  .list (c.evald.map ruleTo), .list (c.expanded.map ruleTo)])])
     | _, _, _, _, _, _ => "bad-op"
   | some (.list [.atom "hcheck", ng, co, lvl, fuel, thms, hitems, hproofs, root]) =>
     -- the heap walk: HITEMS = ((ID RULE ARG (ID…) TH SUBIDX|N)…) by index, HPROOFS = ((idx…)…)
